@@ -1,4 +1,4 @@
-module spike13
+module spike14
 
 go 1.23
 
